@@ -121,7 +121,8 @@ def gen_custom(rng, k):
     n = rng.randint(0, 7)
     for i in range(n):
         kind = rng.choice(["lit", "lit", "litdot", "grp", "swap", "named", "alt", "galt", "null", "backref",
-                           "overlap", "suffix", "multi", "dup", "esc", "deep", "deep"])
+                           "overlap", "suffix", "multi", "dup", "esc", "deep", "deep",
+                           "head", "head", "head"])
         t = f"k{k}r{i}"
         if kind == "lit":
             rows.append((f"lit/{t}", f"lit_{t}"))
@@ -177,6 +178,43 @@ def gen_custom(rng, k):
             rows.append((f"deep/{t}/x/y", f"deep_{t}"))
             labels += [f"deep_{t}", f"deep/{t}/x/y", f"deep/{t}/x", f"deep/{t}"]
             collide.append((f"deep_{t}", f"deep/{t}/x/y", [f"deep/{t}/x", f"deep/{t}"]))
+        elif kind == "head":
+            # rows shaped like the default table's `head:regex` whose part before the first colon (or whose
+            # first/last characters) only LOOKS literal: a wildcard dot, an optional character, a class, an
+            # inline flag, a top-level alternation, an optional colon. Any pre-selection of the rows by a
+            # literal fragment of the pattern (seed C09-k: rows indexed by their "literal" head) loses matches.
+            shape = rng.choice(["dot", "dot", "opt", "cls", "flag", "topalt", "optcolon", "esc", "plus", "grphead",
+                                "taildot"])
+            if shape == "dot":
+                rows.append((f"hd/{t}/\\1", f"cmp.op_{t}:(\\w+)"))
+                labels += [f"cmp.op_{t}:Lt", f"cmp_op_{t}:Lt", f"cmp:op_{t}:Lt", f"cmpop_{t}:Lt", f"cmp_op_{t}:"]
+            elif shape == "opt":
+                rows.append((f"ho/{t}/\\1", f"colou?r_{t}:(\\w+)"))
+                labels += [f"color_{t}:red", f"colour_{t}:red", f"colouur_{t}:red", f"colou?r_{t}:red"]
+            elif shape == "cls":
+                rows.append((f"hc/{t}/\\1", f"[hH]ead_{t}:(\\d+)"))
+                labels += [f"head_{t}:1", f"Head_{t}:22", f"[hH]ead_{t}:1", f"xead_{t}:1"]
+            elif shape == "flag":
+                rows.append((f"hf/{t}/\\1", f"(?i)flag_{t}:(a+)"))
+                labels += [f"flag_{t}:aa", f"FLAG_{t.upper()}:AA", f"Flag_{t}:a", f"flag_{t}:b"]
+            elif shape == "topalt":
+                rows.append((f"ht/{t}", f"if_{t}:.+|else_{t}:.+"))
+                labels += [f"if_{t}:x", f"else_{t}:y", f"elif_{t}:z", f"else_{t}:"]
+            elif shape == "optcolon":
+                rows.append((f"hq/{t}", f"span_{t}:?.*"))
+                labels += [f"span_{t}", f"span_{t}:3", f"span_{t}x", f"xspan_{t}"]
+            elif shape == "esc":
+                rows.append((f"he/{t}/\\1", f"he\\.ad_{t}:(\\w+)"))
+                labels += [f"he.ad_{t}:x", f"he_ad_{t}:x", f"he\\.ad_{t}:x"]
+            elif shape == "plus":
+                rows.append((f"hp/{t}/\\1", f"go+d_{t}:(\\w+)"))
+                labels += [f"god_{t}:x", f"goood_{t}:x", f"gd_{t}:x", f"go+d_{t}:x"]
+            elif shape == "grphead":
+                rows.append((f"hg/\\1/{t}/\\2", f"(in|ex)t_{t}:([a-z]\\w*)"))
+                labels += [f"int_{t}:abc", f"ext_{t}:z", f"t_{t}:abc", f"int_{t}:Abc"]
+            elif shape == "taildot":
+                rows.append((f"hz/{t}/\\1", f"idx_{t}:(\\d+).end"))
+                labels += [f"idx_{t}:3.end", f"idx_{t}:3_end", f"idx_{t}:3end", f"idx_{t}:33:end"]
         elif kind == "esc":
             rows.append((f"esc/{t}", f"p\\.{t}\\(x\\)"))
             labels += [f"p.{t}(x)", f"pq{t}(x)"]
